@@ -46,7 +46,7 @@ pub fn cfg_from(t: &mut Tape) -> Cfg {
         quant: t.choose(4),
         huff: t.choose(3),
         segments: t.choose(12),
-        pad_bit: [1, 0][t.choose(2) as usize],
+        pad_bit: [1, 0, 2, 3][t.choose(4) as usize],
         tail: t.choose(3),
         ans: t.flag(),
         jbrd_first: !t.flag(),
@@ -498,7 +498,7 @@ pub fn main(args: &crate::Args) {
             }
         }
     }
-    rep.rule = format!("JPEG = 11 dimensions: size ({:?}), components 3/1, coefficient pattern ({} incl. one AC coefficient at each of the 63 zigzag positions, DC only, long zero runs / ZRL, no-EOB block, magnitude extremes, dense random, explicit ZRLs before EOB with 5 extra_zero_runs entries), restart interval {{0,1,2,5}}, quantisation tables (standard-like, flat 1, 16-bit, three tables), Huffman tables (two standard sets, one shared, minimal custom), segments (none, JFIF, unknown APPn, COM, several incl. empty and late ones), padding bit 1/0, trailing bytes, entropy coder of the JXL side, box order; ALL configurations within {bound} deviations of the default; each written as JPEG by an independent baseline writer (the oracle) and as ftyp+jbrd+jxlc by jxlw; the container is fed whole, at EVERY 2-chunking and byte-at-a-time (thorough: configurations within 1 deviation; quick: the default configuration, every 6th cut for 1-deviation ones), two chunkings otherwise, with jpeg_reconstruction_status queried after every chunk; oracle: final status 'available' and reconstruct_jpeg output identical to the original file.", SIZES, N_PATTERNS);
+    rep.rule = format!("JPEG = 11 dimensions: size ({:?}), components 3/1, coefficient pattern ({} incl. one AC coefficient at each of the 63 zigzag positions, DC only, long zero runs / ZRL, no-EOB block, magnitude extremes, dense random, explicit ZRLs before EOB with 5 extra_zero_runs entries), restart interval {{0,1,2,5}}, quantisation tables (standard-like, flat 1, 16-bit, three tables), Huffman tables (two standard sets, one shared, minimal custom), segments (none, JFIF, unknown APPn, COM, several incl. empty and late ones), padding bits all 1 / all 0 / alternating from 1 / alternating from 0, trailing bytes, entropy coder of the JXL side, box order; ALL configurations within {bound} deviations of the default; each written as JPEG by an independent baseline writer (the oracle) and as ftyp+jbrd+jxlc by jxlw; the container is fed whole, at EVERY 2-chunking and byte-at-a-time (thorough: configurations within 1 deviation; quick: the default configuration, every 6th cut for 1-deviation ones), two chunkings otherwise, with jpeg_reconstruction_status queried after every chunk; oracle: final status 'available' and reconstruct_jpeg output identical to the original file.", SIZES, N_PATTERNS);
     rep.sample(json!({"tape": tapes[tapes.len() / 2]}));
     {
         let mut t = Tape::from_answers(&tapes[0]);
